@@ -115,4 +115,10 @@ def run(ctx, report):
     from rules import c09
     # the size limit is a test on the consumed item, not on a quantity that includes what follows the record
     c09._own_run(ctx, Only(report, {"DECODE": "SIZE-GUARD"}))
+    # "the same outcome as decoding that item alone": also whatever was decoded before
+    from rules import c01
+    c01.pubkey_rule(ctx, Only(report, {"PUBKEY": "PUBKEY"}))
+    # the outcome of a call is decided by its arguments: no static carries state from one call to the next
+    from rules.purity import hidden_state
+    hidden_state(ctx, report)
 
